@@ -53,6 +53,8 @@ def run(tier, seed):
         c14run.construct_gp_designers()
       elif before:
         c14run.run_mode('designer', before, 1, 99, [2, 2])
+        if mode == 'benchmark':
+          c14run.run_mode('benchmark', before, sd + 1, space_seed, [2])      # another rotation seed, same dimension
       return c14run.run_mode(mode, name, sd, space_seed, steps)
     finally:
       c14run.unperturb()
@@ -92,7 +94,7 @@ def run(tier, seed):
         b = canon(inproc(mode, name, sd, space_seed, steps, 2, before=r.choice([None, 'random', 'eagle']) if name != 'cmaes' else 'gp_construct'))
         runs = [('same process, generators and clock perturbed, another study first', b)]
         if rd == 0 or not quick:
-          pending.append((name, mode, spec, a, pool.submit(child, mode, name, sd, space_seed, steps, 3, r.choice([None, 'quasi_random']))))
+          pending.append((name, mode, spec, a, pool.submit(child, mode, name, sd, space_seed, steps, 3, 'quasi_random' if mode == 'benchmark' else r.choice([None, 'quasi_random']))))
         for how, other in runs:
           if other != a:
             first = [i for i in range(min(len(a), len(other))) if a[i] != other[i]]
